@@ -626,6 +626,11 @@ def run(chk, facts, info):
     rule_unused(chk, facts)
     rule_funcargs(chk, facts)
     rule_radix_marker(chk, facts)
+    chk.rule('C08-R10', 'function.c/asmpars.c: a character of a string operand that becomes a number (CHARFROMSTR, '
+             'multi-character constants) is converted to unsigned char before it is widened', min_instances=1)
+    n10 = string_char_rule(chk, facts.program('asl'), 'C08-R10', lambda u: u in ('function.c', 'asmpars.c', 'operator.c'))
+    if n10 < 1:
+        raise AnalysisBroken('no string-character argument found in function.c')
     chk.note('Decided: operator and function tables against the manual (parsed from doc/assembler-usage.md at run '
              'time), handler dispatch, documented domain guards, division guards, unused results, bounds of string '
              'positions. Not decided: numerical results and literal syntax (e.g. FIRSTBIT(1)).')
